@@ -5,6 +5,8 @@
 import EtVerif.Driver.C09
 import EtVerif.Driver.C11
 import EtVerif.Driver.C08
+import EtVerif.Driver.C06
+import EtVerif.Driver.Compute
 
 open EtVerif EtVerif.Driver
 
@@ -14,10 +16,13 @@ def judgeLine (line : String) : String :=
   | id :: prop :: op :: rest =>
     let p : P Verdict := match prop with
       | "C09" => judgeC09 op
+      | "C01" | "C02" | "C05" | "C18" => (if op == "compute" then judgeCompute prop else throw s!"unknown op {op}")
       | "C10" => judgeC10 op
       | "C11" => judgeC11 op
       | "C08" => judgeC08 op
       | "C04" => judgeC04 op
+      | "C06" => judgeC06 op
+      | "C07" => judgeC07 op
       | _ => throw s!"unknown property {prop}"
     match p.run rest with
     | .ok (v, []) => s!"{id} {v.render}"
